@@ -25,6 +25,10 @@ Inductive Climb : N -> option rtree -> list item -> rtree -> list item -> Prop :
     Climb q (Some lhs) (ISuffix d i :: r) t r'
 | C_suf_out q lhs d i r :
     inside d q = false -> Climb q (Some lhs) (ISuffix d i :: r) lhs (ISuffix d i :: r)
+| C_open q i r inner k r' t r'' :
+    Climb INF None r inner (IClose k :: r') -> Climb q (Some (RGroup i inner)) r' t r'' ->
+    Climb q None (IOpen i :: r) t r''
+| C_close q lhs k r : Climb q (Some lhs) (IClose k :: r) lhs (IClose k :: r)
 | C_end q lhs : Climb q (Some lhs) [] lhs [].
 
 Lemma Climb_sound q acc its t r :
@@ -37,6 +41,8 @@ Proof.
                  |q lhs d i r Hout
                  |q lhs d i r t r' Hin H IH
                  |q lhs d i r Hout
+                 |q i r inner k r' t r'' H1 IH1 H2 IH2
+                 |q lhs k r
                  |q lhs].
   - destruct IH as [L F]. split; [simpl; lia|]. intros f Hf. destruct f as [|f]; [simpl in Hf; lia|].
     simpl. apply F. simpl in Hf. lia.
@@ -50,27 +56,44 @@ Proof.
   - destruct IH as [L F]. split; [simpl; lia|]. intros f Hf. destruct f as [|f]; [simpl in Hf; lia|].
     simpl in Hf. simpl. rewrite Hin. apply F. lia.
   - split; [lia|]. intros f Hf. destruct f as [|f]; [simpl in Hf; lia|]. simpl. rewrite Hout. reflexivity.
+  - destruct IH1 as [L1 F1]. destruct IH2 as [L2 F2]. simpl in L1. split; [simpl; lia|].
+    intros f Hf. destruct f as [|f]; [simpl in Hf; lia|]. simpl in Hf.
+    simpl. rewrite F1 by lia. apply F2. lia.
+  - split; [lia|]. intros f Hf. destruct f as [|f]; [simpl in Hf; lia|]. reflexivity.
   - split; [lia|]. intros f Hf. destruct f as [|f]; [simpl in Hf; lia|]. reflexivity.
 Qed.
 
-(* the pending calls: one per open frame, the outermost with the limit INF *)
-Definition frame_ranked (f : frame) : Prop := exists p, ref_rank (frame_def f) = Some p.
+(* the pending calls: one per open frame, the outermost with the limit INF; an open
+   bracket is the call [climb INF None] of the IOpen case, which must end at a closing
+   bracket *)
+Definition flimit (f : frame) : option N :=
+  match f with FGroup _ _ => Some INF | _ => ref_rank (frame_def f) end.
+
+Definition frame_ranked (f : frame) : Prop := exists p, flimit f = Some p.
 
 Definition rplug (f : frame) (t : rtree) : rtree :=
   match f with
   | FBin _ d k l => RBin d k (erase l) t
   | FPre _ d k => RPre d k t
+  | FGroup _ k => RGroup k t
   end.
 
 Lemma erase_plug f t : erase (plug f t) = rplug f (erase t).
 Proof. destruct f; reflexivity. Qed.
 
+(* what the caller of a returned call consumes before it goes on *)
+Definition after_frame (f : frame) (its' its'' : list item) : Prop :=
+  match f with
+  | FGroup _ _ => exists kc, its' = IClose kc :: its''
+  | _ => its'' = its'
+  end.
+
 Fixpoint Unwind (fs : list frame) (acc : option rtree) (its : list item) (T : rtree) : Prop :=
   match fs with
   | [] => Climb INF acc its T []
   | f :: r =>
-    exists p rhs its', ref_rank (frame_def f) = Some p /\ Climb p acc its rhs its' /\
-                       Unwind r (Some (rplug f rhs)) its' T
+    exists p rhs its' its'', flimit f = Some p /\ Climb p acc its rhs its' /\ after_frame f its' its'' /\
+                             Unwind r (Some (rplug f rhs)) its'' T
   end.
 
 (* every operator of the list has a rank below the outermost limit *)
@@ -87,7 +110,7 @@ Proof. intros H L. unfold inside. rewrite H. apply N.ltb_lt in L. rewrite L. ref
 Definition limit (fs : list frame) (q : N) : Prop :=
   match fs with
   | [] => q = INF
-  | f :: _ => ref_rank (frame_def f) = Some q
+  | f :: _ => flimit f = Some q
   end.
 
 (* replacing the head call of the pending calls *)
@@ -97,17 +120,19 @@ Lemma Unwind_head fs acc its acc' its' T :
 Proof.
   intros H. destruct fs as [|f r]; simpl.
   - apply H. reflexivity.
-  - intros (p & rhs & its'' & Hp & Hc & Hu). exists p, rhs, its''. split; [exact Hp|]. split; [|exact Hu].
-    apply H; [exact Hp|exact Hc].
+  - intros (p & rhs & i1 & i2 & Hp & Hc & Ha & Hu). exists p, rhs, i1, i2. split; [exact Hp|].
+    split; [|split; [exact Ha|exact Hu]]. apply H; [exact Hp|exact Hc].
 Qed.
 
-Lemma Unwind_nil : forall fs t, Forall frame_ranked fs ->
+Lemma Unwind_nil : forall fs t, Forall frame_ranked fs -> existsb is_fgroup fs = false ->
   Unwind fs (Some (erase t)) [] (erase (close fs t)).
 Proof.
-  induction fs as [|f r IH]; intros t HF; simpl.
+  induction fs as [|f r IH]; intros t HF HG; simpl.
   - apply C_end.
-  - inversion HF as [|? ? [p Hp] HF']; subst. exists p, (erase t), []. split; [exact Hp|]. split; [apply C_end|].
-    rewrite <- erase_plug. apply IH. exact HF'.
+  - inversion HF as [|? ? [p Hp] HF']; subst. simpl in HG. apply orb_false_iff in HG. destruct HG as [G1 G2].
+    exists p, (erase t), [], []. split; [exact Hp|]. split; [apply C_end|].
+    split; [destruct f; try discriminate G1; reflexivity|].
+    rewrite <- erase_plug. apply IH; assumption.
 Qed.
 
 Lemma pop_ranked d : forall fs t fs1 t1, Forall frame_ranked fs -> pop d fs t = (fs1, t1) -> Forall frame_ranked fs1.
@@ -139,9 +164,41 @@ Proof.
   - injection H as <- <-. exact HU.
   - destruct (stays_below d f) eqn:E.
     + injection H as <- <-. exact HU.
-    + inversion HF as [|? ? [p Hp] HF']; subst. unfold stays_below in E. rewrite Hp in E.
-      simpl. exists p, (erase t), its. split; [exact Hp|]. split; [apply Hout; exact E|].
+    + inversion HF as [|? ? [p Hp] HF']; subst.
+      assert (Hng : is_fgroup f = false) by (destruct f; try reflexivity; discriminate E).
+      assert (Hin : inside d p = false).
+      { destruct f; try discriminate Hng; unfold stays_below in E; simpl in Hp, E; rewrite Hp in E; exact E. }
+      simpl. exists p, (erase t), its, its. split; [exact Hp|]. split; [apply Hout; exact Hin|].
+      split; [destruct f; try discriminate Hng; reflexivity|].
       rewrite <- erase_plug. eapply IH; eauto.
+Qed.
+
+(* the frames closed by a closing bracket: every pending call returns at the bracket, the
+   call of the opening bracket consumes it *)
+Lemma close_group_ranked : forall fs t fs1 t1, Forall frame_ranked fs -> close_group fs t = Some (fs1, t1) ->
+  Forall frame_ranked fs1.
+Proof.
+  induction fs as [|f r IH]; intros t fs1 t1 HF H; [discriminate|].
+  inversion HF; subst. destruct f; cbn [close_group] in H.
+  - eapply IH; eauto.
+  - eapply IH; eauto.
+  - injection H as <- <-. assumption.
+Qed.
+
+Lemma close_group_unwind k (its : list item) T :
+  forall fs t fs1 t1, Forall frame_ranked fs -> close_group fs t = Some (fs1, t1) ->
+  Unwind fs1 (Some (erase t1)) its T -> Unwind fs (Some (erase t)) (IClose k :: its) T.
+Proof.
+  induction fs as [|f r IH]; intros t fs1 t1 HF H HU; [discriminate|].
+  inversion HF as [|? ? [p Hp] HF']; subst. destruct f as [i d kk l|i d kk|i kk]; cbn [close_group] in H.
+  - simpl. exists p, (erase t), (IClose k :: its), (IClose k :: its). split; [exact Hp|].
+    split; [apply C_close|]. split; [reflexivity|]. change (RBin d kk (erase l) (erase t)) with (erase (plug (FBin i d kk l) t)).
+    eapply IH; eauto.
+  - simpl. exists p, (erase t), (IClose k :: its), (IClose k :: its). split; [exact Hp|].
+    split; [apply C_close|]. split; [reflexivity|]. change (RPre d kk (erase t)) with (erase (plug (FPre i d kk) t)).
+    eapply IH; eauto.
+  - injection H as <- <-. simpl. exists p, (erase t), (IClose k :: its), its. split; [exact Hp|].
+    split; [apply C_close|]. split; [exists k; reflexivity|]. exact HU.
 Qed.
 
 Lemma limit_inside d fs q :
@@ -151,34 +208,38 @@ Lemma limit_inside d fs q :
 Proof.
   intros (p & Hp & Lp) Hh Hl. destruct fs as [|f r]; simpl in Hl.
   - subst q. eapply inside_INF; eauto.
-  - unfold stays_below in Hh. rewrite Hl in Hh. exact Hh.
+  - destruct f; simpl in Hl, Hh.
+    + unfold stays_below in Hh. simpl in Hh. rewrite Hl in Hh. exact Hh.
+    + unfold stays_below in Hh. simpl in Hh. rewrite Hl in Hh. exact Hh.
+    + injection Hl as <-. eapply inside_INF; eauto.
 Qed.
 
 Theorem spine_run_unwind : forall its n fs acc fs' t',
   Forall item_ranked its -> Forall frame_ranked fs ->
-  spine_run its n (fs, acc) = Some (fs', Some t') ->
+  spine_run its n (fs, acc) = Some (fs', Some t') -> existsb is_fgroup fs' = false ->
   Unwind fs (option_map erase acc) its (erase (close fs' t')).
 Proof.
-  induction its as [|it r IH]; intros n fs acc fs' t' HI HF H.
-  - simpl in H. injection H as <- ->. simpl. apply Unwind_nil. exact HF.
+  induction its as [|it r IH]; intros n fs acc fs' t' HI HF H HG.
+  - simpl in H. injection H as <- ->. simpl. apply Unwind_nil; assumption.
   - inversion HI as [|? ? Hit HI']; subst. cbn [spine_run] in H.
     destruct (spine_step it n (fs, acc)) as [[fs2 acc2]|] eqn:Es; [|discriminate].
-    specialize (IH (S n) fs2 acc2 fs' t' HI').
+    specialize (IH (next_index it n) fs2 acc2 fs' t' HI').
     destruct it as [d k|d k|d k|d k|k|k]; destruct acc as [t|]; cbn [spine_step] in Es; try discriminate.
     + (* value *)
-      injection Es as <- <-. specialize (IH HF H). cbn [option_map erase] in *.
+      injection Es as <- <-. specialize (IH HF H HG). cbn [option_map erase] in *.
       eapply Unwind_head; [|exact IH]. intros q t0 r0 _ Hc. apply C_val. exact Hc.
     + (* prefix *)
       destruct (ref_rank d) as [p|] eqn:Ep; [|discriminate]. injection Es as <- <-.
       assert (HF2 : Forall frame_ranked (FPre n d k :: fs)) by (constructor; [exists p; exact Ep|exact HF]).
-      specialize (IH HF2 H). cbn [option_map Unwind] in IH.
-      destruct IH as (p' & rhs & its' & Hp' & Hc & HU). cbn [frame_def] in Hp'.
+      specialize (IH HF2 H HG). cbn [option_map Unwind] in IH.
+      destruct IH as (p' & rhs & its' & its'' & Hp' & Hc & Ha & HU). cbn [flimit frame_def] in Hp'.
+      cbn [after_frame] in Ha. subst its''.
       cbn [option_map]. eapply Unwind_head; [|exact HU]. cbn [rplug].
       intros q t0 r0 _ Hc0. eapply C_pre; [exact Hp'|exact Hc|exact Hc0].
     + (* suffix *)
       destruct (ref_rank d) as [p|] eqn:Ep; [|discriminate].
       destruct (pop d fs t) as [fs1 t1] eqn:Epop. injection Es as <- <-.
-      pose proof (pop_ranked _ _ _ _ _ HF Epop) as HF1. specialize (IH HF1 H).
+      pose proof (pop_ranked _ _ _ _ _ HF Epop) as HF1. specialize (IH HF1 H HG).
       cbn [option_map erase] in *.
       eapply (pop_unwind d); [|exact HF|exact Epop|].
       * intros q lhs Hq. apply C_suf_out. exact Hq.
@@ -189,14 +250,27 @@ Proof.
       destruct (pop d fs t) as [fs1 t1] eqn:Epop. injection Es as <- <-.
       pose proof (pop_ranked _ _ _ _ _ HF Epop) as HF1.
       assert (HF2 : Forall frame_ranked (FBin n d k t1 :: fs1)) by (constructor; [exists p; exact Ep|exact HF1]).
-      specialize (IH HF2 H). cbn [option_map Unwind] in IH.
-      destruct IH as (p' & rhs & its' & Hp' & Hc & HU). cbn [frame_def] in Hp'. cbn [rplug] in HU.
+      specialize (IH HF2 H HG). cbn [option_map Unwind] in IH.
+      destruct IH as (p' & rhs & its' & its'' & Hp' & Hc & Ha & HU). cbn [flimit frame_def] in Hp'. cbn [rplug] in HU.
+      cbn [after_frame] in Ha. subst its''.
       cbn [option_map].
       eapply (pop_unwind d); [|exact HF|exact Epop|].
       * intros q lhs Hq. apply C_bin_out. exact Hq.
       * eapply Unwind_head; [|exact HU]. intros q t0 r0 Hl Hc0.
         eapply C_bin_in; [|exact Hp'|exact Hc|exact Hc0].
         eapply limit_inside; [exact Hit|eapply pop_head; exact Epop|exact Hl].
+    + (* opening bracket *)
+      injection Es as <- <-.
+      assert (HF2 : Forall frame_ranked (FGroup n k :: fs)) by (constructor; [exists INF; reflexivity|exact HF]).
+      specialize (IH HF2 H HG). cbn [option_map Unwind] in IH.
+      destruct IH as (p' & rhs & its' & its'' & Hp' & Hc & Ha & HU). cbn [flimit] in Hp'. injection Hp' as <-.
+      cbn [after_frame] in Ha. destruct Ha as [kc ->]. cbn [rplug] in HU.
+      cbn [option_map]. eapply Unwind_head; [|exact HU].
+      intros q t0 r0 _ Hc0. eapply C_open; [exact Hc|exact Hc0].
+    + (* closing bracket *)
+      destruct (close_group fs t) as [[fs1 t1]|] eqn:Ecl; [|discriminate]. injection Es as <- <-.
+      pose proof (close_group_ranked _ _ _ _ HF Ecl) as HF1. specialize (IH HF1 H HG).
+      cbn [option_map] in *. eapply close_group_unwind; eauto.
 Qed.
 
 (* spine insertion computes the tree precedence climbing defines *)
@@ -205,7 +279,8 @@ Theorem spine_insert_climb its T f :
   climb f INF None its = Some (erase T, []).
 Proof.
   intros HI H Hf. unfold spine_insert in H.
-  destruct (spine_run its 0 ([], None)) as [[fs [t|]]|] eqn:E; try discriminate. injection H as <-.
-  pose proof (spine_run_unwind its 0 [] None fs t HI (Forall_nil _) E) as U. simpl in U.
+  destruct (spine_run its 0 ([], None)) as [[fs [t|]]|] eqn:E; try discriminate.
+  destruct (existsb is_fgroup fs) eqn:EG; [discriminate|]. injection H as <-.
+  pose proof (spine_run_unwind its 0 [] None fs t HI (Forall_nil _) E EG) as U. simpl in U.
   apply Climb_sound in U. destruct U as [_ U]. apply U. exact Hf.
 Qed.
